@@ -32,6 +32,7 @@
 import SpectraVerif.Proofs.C03Lemmas
 import SpectraVerif.Properties.C05
 import SpectraVerif.Gen.Footprint
+import SpectraVerif.Proofs.C03Members
 import SpectraVerif.Proofs.ScField
 
 set_option linter.unusedSectionVars false
@@ -325,6 +326,48 @@ theorem c03_rvalue_op :
     ("HermEigsBase", "m_op", "cref", "const OpType &") ∈ solver_members ∧
     ("HermEigsBase", "m_fac", "value", "Spectra::HermEigsBase::LanczosFac") ∈ solver_members := by
   refine ⟨by decide, by decide, by decide, by decide⟩
+
+/-! ### the shift the back-transformation uses is the shift the solver was constructed with -/
+open Gen.GSymMembers in
+/-- **shift held by value.**  Regenerated from the headers on every run (`Gen.GSymMembers`, xlate/tgt_c03.py): `members` lists ALL data members of the
+    five generalized solver specializations, of `HermEigsBase` and of the five composite operator classes (name, declared type, reference?, pointer /
+    non-owning handle?, top-level `const`?, `mutable`?), `sigma_sinks` every constructor initializer / assignment through which a parameter named
+    `sigma` flows into a member or base, `back_reads` the own members each solver member function reads.
+    (1) every member that STORES THE SHIFT (a `sigma` parameter is written into it, or `sort_ritzpair` reads it) is held by value — not a reference,
+        not a pointer, not an Eigen::Ref/Map or other non-owning handle — in every class and specialization (incl. `SymGEigsCayleyOp::m_sigma`);
+    (2) every member a `sigma` parameter is written into is a row of the table (a renamed or added shift member cannot escape (1));
+    (3) in EVERY specialization `SymGEigsShiftSolver<ShiftInvert|Buckling|Cayley>` there is a by-value, `const`, non-`mutable` member which the
+        constructor initializes as a COPY of its `sigma` argument (the same argument it hands to `set_shift_and_move`), which `sort_ritzpair` reads and
+        which is the ONLY own member `sort_ritzpair` reads.
+    By the C++ rules for a by-value `const` member (trusted, as for `c03_rvalue_op`) its value at every later `compute()` is the constructor argument:
+    the `σ` of `back m σ` in `c03_values_backtransformed` / `c03_back_inverse` is the `σ` of `construct`, whatever the caller does with the variable
+    (or temporary) it passed.  Proof: the boolean checker `C03M.sigmaByValueB`, sound for EVERY table (`C03M.sigmaByValueB_sound`), evaluated by
+    the kernel on the regenerated table.  `const Scalar& m_sigma`, `const Scalar* m_sigma`, `Eigen::Ref<...>`: the evaluation yields `false`. -/
+theorem c03_sigma_by_value :
+    (∀ m ∈ members, C03M.storesShift sigma_sinks back_reads m = true → m.isRef = false ∧ m.isPtr = false) ∧
+    (∀ s ∈ sigma_sinks, s.isBase = false → ∃ m ∈ members, m.cls = s.cls ∧ m.spec = s.spec ∧ m.name = s.target) ∧
+    (∀ spec ∈ ["ShiftInvert", "Buckling", "Cayley"], ∃ m ∈ members, m.cls = "SymGEigsShiftSolver" ∧ m.spec = spec ∧
+        m.isRef = false ∧ m.isPtr = false ∧ m.isConst = true ∧ m.isMutable = false ∧
+        ({ cls := "SymGEigsShiftSolver", spec := spec, fn := "SymGEigsShiftSolver", target := m.name, isBase := false, how := "copy" } : Sink) ∈ sigma_sinks ∧
+        ("SymGEigsShiftSolver", spec, "sort_ritzpair", m.name) ∈ back_reads ∧
+        ∀ r ∈ back_reads, r.1 = "SymGEigsShiftSolver" → r.2.1 = spec → r.2.2.1 = "sort_ritzpair" → r.2.2.2 = m.name) := by
+  have h := C03M.sigmaByValueB_sound members sigma_sinks back_reads (by decide)
+  exact ⟨h.by_value, h.resolved, h.every_spec⟩
+
+open Gen.GSymMembers in
+/-- **no hidden state behind the accessors.**  The five solver specializations found in the headers are exactly the five modes, each derived from
+    `HermEigsBase` over its own composite operator; none of them, nor `HermEigsBase`, has a `mutable` data member: the `const` accessors
+    (`eigenvalues()`, `eigenvectors(nvec)`, `info()`, `num_iterations()`, `num_operations()`) cannot record anything between calls, so what they
+    hand back is a function of the state the last `init`/`compute` left (what `c03_eigenvectors_shape` / `C05.c05_accessor_pairing` say of the model).
+    The only `mutable` members in the footprint are the work vectors `m_cache` of the composite operators (overwritten before being read in every
+    `perform_op`).  A memo of earlier results kept in a `mutable` member changes the table and makes this evaluation `false`. -/
+theorem c03_accessors_stateless :
+    spec_classes.map (fun c => (c.1, c.2.1)) =
+      [("SymGEigsShiftSolver", "ShiftInvert"), ("SymGEigsShiftSolver", "Buckling"), ("SymGEigsShiftSolver", "Cayley"),
+       ("SymGEigsSolver", "Cholesky"), ("SymGEigsSolver", "RegularInverse")] ∧
+    (∀ m ∈ members, m.cls ∈ ["SymGEigsSolver", "SymGEigsShiftSolver", "HermEigsBase"] → m.isMutable = false) ∧
+    (∀ m ∈ members, m.isMutable = true → m.name = "m_cache" ∧ m.isRef = false ∧ m.isPtr = false) := by
+  refine ⟨by decide, by decide, by decide⟩
 
 /-! ### non-vacuity: the hypotheses are satisfiable (exact arithmetic over ℚ) -/
 
